@@ -1,5 +1,5 @@
 (* P_C10.v — property theorems for C10 only. *)
-From ZT Require Import Base Layers LayersFacts.
+From ZT Require Import Base Layers LayersFacts LayersStable.
 From Coq Require Import Permutation.
 
 (* The order depends only on the set of requested layers, not on their discovery order. *)
@@ -32,3 +32,19 @@ Theorem C10_unit_first : forall w u ls,
   unit_layer w = Some u -> bases_of w u = [] -> In u ls -> exists r, order_by_bases w ls = u :: r.
 Proof. exact obb_unit_first. Qed.
 Print Assumptions C10_unit_first.
+
+(* Repeated use on the same layers (run after run in one interpreter; a caller that hands back a list it was given): the order is a
+   fixed point, and the reversed result — what tear_down_unneeded makes of it — as a request gives the same order again. *)
+Theorem C10_order_is_a_fixed_point : forall w ls, keys_inj w ls -> NoDup ls ->
+  order_by_bases w (order_by_bases w ls) = order_by_bases w ls.
+Proof. exact obb_idempotent. Qed.
+Print Assumptions C10_order_is_a_fixed_point.
+
+Theorem C10_reversed_result_as_request : forall w ls, keys_inj w ls -> NoDup ls ->
+  order_by_bases w (rev (order_by_bases w ls)) = order_by_bases w ls.
+Proof. exact obb_of_reversed_result. Qed.
+Print Assumptions C10_reversed_result_as_request.
+
+Theorem C10_reversed_request : forall w ls, keys_inj w ls -> order_by_bases w (rev ls) = order_by_bases w ls.
+Proof. exact obb_reversed_request. Qed.
+Print Assumptions C10_reversed_request.
